@@ -516,3 +516,114 @@ Proof.
     + rewrite HPR. apply perm_skip. exact HR'.
     + constructor; assumption.
 Qed.
+
+(* ---------------------------------------------------------------- cuts: edges of the pieces *)
+Lemma linked_of_lines : forall ps : list line, linked_lines ps -> linked (map (mkSeg 0 0 false) ps).
+Proof.
+  induction ps as [|a ps IH]; intros H; [exact I|]. destruct ps as [|b ps']; [exact I|].
+  destruct H as [Hab H]. split; [exact Hab|]. apply IH. exact H.
+Qed.
+
+Lemma lines_of_linked : forall fs : list segment, linked fs -> linked_lines (map seg_line fs).
+Proof.
+  induction fs as [|a fs IH]; intros H; [exact I|]. destruct fs as [|b fs']; [exact I|].
+  destruct H as [Hab H]. split; [exact Hab|]. apply IH. exact H.
+Qed.
+
+Lemma cut_edges : forall ring ps, cut_of ring ps -> flat_map line_edges ps = line_edges ring.
+Proof.
+  intros ring ps (Hne & Hall & Hl & Hm). rewrite <- Hm.
+  destruct (merge_edges (map (mkSeg 0 0 false) ps) (linked_of_lines ps Hl)) as [E _].
+  - apply Forall_map. eapply Forall_impl; [|exact Hall]. intros l Hl2. exact Hl2.
+  - rewrite map_map in E. simpl in E. rewrite map_id in E. rewrite E.
+    clear. induction ps as [|a ps IH]; [reflexivity|]. simpl. rewrite IH. reflexivity.
+Qed.
+
+Lemma uedges_flip : forall pl : list (line * bool),
+  Permutation (map uedge (flat_map line_edges (map flip pl)))
+              (map uedge (flat_map line_edges (map fst pl))).
+Proof.
+  induction pl as [|[l b] pl IH]; [reflexivity|].
+  simpl. rewrite !map_app. apply Permutation_app; [|exact IH].
+  unfold flip. simpl. destruct b; [apply uedges_rev|reflexivity].
+Qed.
+
+Lemma is_cut_uedges : forall rs segs, is_cut (map close_ring rs) segs ->
+  Permutation (map uedge (flat_map seg_edges segs)) (map uedge (flat_map ringE rs)).
+Proof.
+  intros rs segs (_ & pss & pl & HF & Hfst & HP).
+  assert (E1 : flat_map seg_edges segs = flat_map line_edges (map seg_line segs)).
+  { rewrite !flat_map_concat_map, map_map. reflexivity. }
+  rewrite E1. rewrite (Permutation_map uedge (Permutation_flat_map line_edges HP)).
+  rewrite uedges_flip, Hfst. apply Permutation_map.
+  assert (E2 : flat_map line_edges (concat pss) = flat_map ringE rs); [|rewrite E2; reflexivity].
+  clear -HF. remember (map close_ring rs) as rings eqn:Er. revert rs Er.
+  induction HF as [|ring ps rings pss Hc HF IH]; intros rs Er.
+  - destruct rs; [reflexivity|discriminate].
+  - destruct rs as [|r rs]; [discriminate|]. simpl in Er. inversion Er; subst.
+    simpl. rewrite flat_map_app, (cut_edges _ _ Hc), (IH rs eq_refl). reflexivity.
+Qed.
+
+(* ---------------------------------------------------------------- chain lines *)
+Lemma chain_line_shape : forall obs c, chain_rel obs c ->
+  2 <= length (ms_line c) /\ lfirst (ms_line c) = ms_first c /\ llast (ms_line c) = ms_last c.
+Proof.
+  intros obs c H. destruct (chain_rel_ends _ _ H) as [Ef El].
+  destruct (chain_rel_explicit _ _ H) as (_ & Hlk & Hall).
+  destruct (chain_rel_nonempty _ _ H) as [Hne _].
+  rewrite (chain_rel_line _ _ H). rewrite <- (map_map orient seg_line).
+  set (fs := map orient obs).
+  assert (Hfs : fs <> []) by (unfold fs; destruct obs; [congruence|discriminate]).
+  assert (Hall2 : Forall (fun l : line => 2 <= length l) (map seg_line fs)).
+  { unfold fs. rewrite map_map. apply Forall_map. eapply Forall_impl; [|exact Hall].
+    intros ob Hob. apply (len2_orient ob Hob). }
+  destruct (cut_ends (map seg_line fs)) as (C1 & C2 & _).
+  - destruct fs; [congruence|discriminate].
+  - exact Hall2.
+  - apply lines_of_linked. exact Hlk.
+  - split; [|split].
+    + destruct fs as [|f fs']; [congruence|]. simpl. rewrite app_length.
+      inversion Hall2; subst. lia.
+    + rewrite C1, Ef. unfold fs. destruct obs; [congruence|reflexivity].
+    + rewrite C2, El. unfold fs.
+      change [] with (seg_line dummy_seg) at 1. rewrite last_map.
+      change dummy_seg with (orient dummy_ob). rewrite last_map. reflexivity.
+Qed.
+
+Lemma Forall2_map_r : forall {A B C} (P : A -> C -> Prop) (f : B -> C) la lb,
+  Forall2 P la (map f lb) -> Forall2 (fun a b => P a (f b)) la lb.
+Proof.
+  intros A B C P f la. induction la as [|a la IH]; intros lb H; destruct lb as [|b lb]; inversion H; subst.
+  - constructor.
+  - constructor; [assumption|apply IH; assumption].
+Qed.
+
+(* ---------------------------------------------------------------- join_closes_rings *)
+(* rs: the rings as lists of distinct vertices (first vertex not repeated), written from one of
+   their cut vertices; all vertices of the scene pairwise distinct; segs: any cut of the closed
+   rings into consecutive pieces, any subset reversed, in any order.  Then the chains of join are
+   in bijection with the rings, and the line of each chain is its ring: closed, from some start
+   vertex, forwards or backwards — no vertex lost, duplicated or invented. *)
+Theorem join_closes_rings : forall (rs : list line) segs chains,
+  NoDup (concat rs) -> Forall (fun r => 3 <= length r) rs ->
+  is_cut (map close_ring rs) segs -> join segs = JoinOk chains ->
+  exists rs', Permutation rs' rs /\
+              Forall2 (fun r c => is_ring_line r (ms_line c)) rs' chains.
+Proof.
+  intros rs segs chains Hnd Hlen Hcut Hj.
+  pose proof (join_closes_cut _ _ _ Hcut Hj) as Hclosed.
+  destruct (join_conserves _ _ Hj) as (obss & HF & _).
+  pose proof (join_conserves_edges _ _ Hj) as HE.
+  rewrite (compact_id segs (is_cut_len2 _ _ Hcut)) in HE.
+  rewrite (is_cut_uedges rs segs Hcut) in HE.
+  destruct (trails_are_rings (map ms_line chains) rs Hnd Hlen) as (rs' & HP & HF2).
+  - clear -HF Hclosed. induction HF as [|obs c obss chains Hc HF IH]; [constructor|].
+    inversion Hclosed; subst. simpl. constructor; [|apply IH; assumption].
+    destruct (chain_line_shape _ _ Hc) as (Hlen2 & Hf & Hl). split; [exact Hlen2|].
+    rewrite Hf, Hl. assumption.
+  - assert (E : flat_map line_edges (map ms_line chains) =
+               flat_map (fun c => line_edges (ms_line c)) chains).
+    { clear. induction chains as [|c cs IH]; [reflexivity|]. simpl. rewrite IH. reflexivity. }
+    rewrite E. symmetry. exact HE.
+  - exists rs'. split; [exact HP|]. apply Forall2_map_r. exact HF2.
+Qed.
